@@ -103,7 +103,8 @@ def main():
                 "tail": out[-500:] if r.returncode not in (0, 1) else "",
             }
         meta["checks"] = results
-        meta["detected"] = results[a.prop]["exit"] == 1
+        # exit 1 alone is not enough (a crashing harness also exits 1): a violation line must be there
+        meta["detected"] = results[a.prop]["exit"] == 1 and bool(results[a.prop]["violations"])
         meta["ran"] = (f"tools/seedcheck.py: demo on clean tree (exit {meta['demo_clean_exit']}), patch applied to a scratch "
                        f"worktree of {head}, demo (exit {meta['demo_patched_exit']}), full pytest suite vs baseline, "
                        f"`python -m vf {a.prop} --tier {a.tier}` with VERIF_REPO=<scratch>")
